@@ -48,9 +48,12 @@ pub enum Traffic {
     /// segment another one even farther, also just below the first payload byte), then small
     /// in-order segments: work per packet must follow the bytes held, not the sequence distance
     HttpStraySegmentFarAhead,
+    /// the first fragment of a ClientHello record, then a hole (one segment is never seen), then
+    /// endless in-order segments behind the hole; every 2000th segment opens another hole
+    TlsHelloFragmentHoleThenData,
 }
 
-pub const ALL: [Traffic; 16] = [
+pub const ALL: [Traffic; 17] = [
     Traffic::HttpHeadNeverCompletes,
     Traffic::HttpPostEndlessBody,
     Traffic::HttpResponseNeverCompletes,
@@ -67,6 +70,7 @@ pub const ALL: [Traffic; 16] = [
     Traffic::HttpRetransmissionStorm,
     Traffic::Http2FailingBlockThenData,
     Traffic::HttpStraySegmentFarAhead,
+    Traffic::TlsHelloFragmentHoleThenData,
 ];
 
 /// Lazily produces the frames of one long connection.
@@ -82,7 +86,7 @@ pub struct LongConn {
 impl LongConn {
     pub fn new(kind: Traffic, id: u64, seed: u64, seg: usize) -> LongConn {
         let mut r = Rng::from_parts(&[seed, id, kind as u64]);
-        let ep = Endpoints::v4([10, 7, (id >> 8) as u8, id as u8], 20000 + (id % 30000) as u16, [192, 0, 2, 1 + (id % 200) as u8], if matches!(kind, Traffic::TlsAppDataAfterServerHello | Traffic::TlsAppDataAfterClientHello | Traffic::TlsHugeDeclaredRecord | Traffic::TlsSeveralRecordsPerSegment) { 443 } else { 80 });
+        let ep = Endpoints::v4([10, 7, (id >> 8) as u8, id as u8], 20000 + (id % 30000) as u16, [192, 0, 2, 1 + (id % 200) as u8], if matches!(kind, Traffic::TlsAppDataAfterServerHello | Traffic::TlsAppDataAfterClientHello | Traffic::TlsHugeDeclaredRecord | Traffic::TlsSeveralRecordsPerSegment | Traffic::TlsHelloFragmentHoleThenData) { 443 } else { 80 });
         let mut s = Script::new(ep, Link::Ethernet, r.u32(), r.u32());
         s.handshake();
         match kind {
@@ -109,6 +113,12 @@ impl LongConn {
             }
             Traffic::TlsHugeDeclaredRecord => {
                 s.c_data(&[0x16, 0x03, 0x01, 0xff, 0xff, 0x01, 0x00, 0xff, 0xfb, 0x03, 0x03]);
+            }
+            Traffic::TlsHelloFragmentHoleThenData => {
+                // a 16 KiB hello of which only the first 600 octets are seen
+                let h = scenario::client_hello(&mut r, id, 16000);
+                s.c_data(&h[..600]);
+                s.c_next = s.c_next.wrapping_add(1400);
             }
             Traffic::HttpOppositeRoleHeadThenData => {
                 s.c_data(b"HTTP/1.1 200 OK\r\nServer: nginx\r\nContent-Type: text/html\r\n\r\n");
@@ -180,6 +190,13 @@ impl LongConn {
                 self.s.c_data(&b);
             }
             Traffic::TlsHugeDeclaredRecord => {
+                let b = self.r.bytes(n);
+                self.s.c_data(&b);
+            }
+            Traffic::TlsHelloFragmentHoleThenData => {
+                if self.i % 2000 == 0 {
+                    self.s.c_next = self.s.c_next.wrapping_add(1 + self.r.below(3000) as u32);
+                }
                 let b = self.r.bytes(n);
                 self.s.c_data(&b);
             }
@@ -477,6 +494,11 @@ pub fn run(ctx: &mut Ctx) {
         if !ctx.mine(idx) {
             continue;
         }
+        // `complete` connections (the light Http/Unified rows, every other connection): a whole
+        // request/response exchange whose header values (Accept-Language, User-Agent, Cookie,
+        // Host, path, Server) occur nowhere else -- a finished connection leaves nothing behind,
+        // whatever it said
+        let complete_mix = light && which != Which::Tls;
         let conns = if light { cap as u64 * ctx.scale(40, 400, 3) } else if cap == 1000 { 1200u64 } else { (cap as u64 * 4).max(8) };
         let per = if light { 1 } else { ctx.scale(60, 300, 4) };
         let mut runner = Runner::new(which, cap, false);
@@ -487,6 +509,29 @@ pub fn run(ctx: &mut Ctx) {
         let mut failed = None;
         'outer: for c in 0..conns {
             let kind = if which == Which::Tls || (light && which == Which::Unified && c % 2 == 0) { Traffic::TlsHugeDeclaredRecord } else { Traffic::HttpHeadNeverCompletes };
+            if complete_mix && c % 2 == 1 {
+                let ep = Endpoints::v4([10, 9, (c >> 8) as u8, c as u8], 30000 + (c % 30000) as u16, [192, 0, 2, 77], 80);
+                let mut s = Script::new(ep, Link::Ethernet, c as u32 * 7919, c as u32 * 104729);
+                s.handshake();
+                let tag = format!("{:08x}{:08x}", c.wrapping_mul(0x9E37_79B9), ctx.seed);
+                let langs: String = (0..40).map(|k| format!("x{k}-{tag};q=0.{}", 1 + k % 9)).collect::<Vec<_>>().join(", ");
+                let req = format!("GET /u/{tag} HTTP/1.1\r\nHost: h{tag}.example\r\nUser-Agent: agent-{tag}/1.0 ({tag}{tag}{tag})\r\nAccept: */*\r\nAccept-Language: {langs}\r\nCookie: sid={tag}; t={tag}{tag}\r\nReferer: http://ref{tag}.example/{tag}\r\n\r\n");
+                s.c_data(req.as_bytes());
+                let res = format!("HTTP/1.1 200 OK\r\nServer: srv-{tag}/2.{c}\r\nContent-Type: text/{tag}\r\nContent-Length: 0\r\n\r\n");
+                s.s_data(res.as_bytes());
+                for f in std::mem::take(&mut s.frames) {
+                    if let Err(p) = runner.feed(scenario::T0, &f) {
+                        failed = Some(p);
+                        break 'outer;
+                    }
+                }
+                let live = alloc::thread_snap().live() - base.live();
+                max_live = max_live.max(live);
+                if c + 1 > cap as u64 {
+                    max_after_cap = max_after_cap.max(live);
+                }
+                continue;
+            }
             let mut conn = LongConn::new(kind, 100_000 + c, ctx.seed, if light { 64 } else { 1400 });
             for f in conn.prelude() {
                 if let Err(p) = runner.feed(scenario::T0, &f) {
